@@ -85,6 +85,20 @@ Theorem C07_malformed_directive_is_error :
 Proof. exact malformed_directive_is_error. Qed.
 Print Assumptions C07_malformed_directive_is_error.
 
+(** Instruction descriptions: for an element whose first line is `D` REST (no back-tick in D) the recorded
+    description is D without surrounding white space — padding inside the delimiters is not part of it — and the
+    instruction is looked for right after the CLOSING back-tick (column |D| + 2: on this line after white space,
+    else on the following lines after comment / empty lines), whatever white space D contains.  ([instr_desc],
+    [elem_desc] in Model/Doc.v give the description also when it spans several lines.) *)
+Theorem C07_description_on_first_line :
+  forall iparse s n d r rest,
+    (forall x, In x d -> (x =? c_btick) = false) ->
+    let l0 := c_btick :: d ++ c_btick :: r in
+    instr_desc l0 rest = Some (strip d) /\
+    instr_step iparse s n l0 rest = skip_cursor iparse s n l0 n l0 (length d + 2) rest.
+Proof. exact described_on_first_line. Qed.
+Print Assumptions C07_description_on_first_line.
+
 (** Including a file that resolves to one of the files on the chain of including files is reported as an
     access error that carries the chain (with the offending directive last). *)
 Theorem C07_cycle_is_error :
